@@ -223,14 +223,21 @@ func HandleMessages(startTime time.Time, reader io.Reader, writer io.Writer, con
 	writer.Write([]byte("18 seconds ahead of UTC\n\n"))
 
 	messageChan := make(chan rtcm.Message, 2)
-	go DisplayMessages(messageChan, writer)
+	displayDone := make(chan struct{})
+	go func() {
+		defer close(displayDone)
+		DisplayMessages(messageChan, writer)
+	}()
 
 	channels := make([]chan rtcm.Message, 0)
 	channels = append(channels, messageChan)
 	appCore := AppCore.New(config, channels)
 	appCore.HandleMessagesUntilEOF(startTime, bufferedReader)
 
+	// Close the channel and wait until everything has been displayed - the
+	// caller exits as soon as this function returns.
 	close(messageChan)
+	<-displayDone
 }
 
 // DisplayMessages receives messages from the given channel, produces a
